@@ -53,6 +53,8 @@ pub fn get_usize(l: &Value, k: &str) -> usize {
 pub trait BookDyn: Send {
     fn levels(&self) -> usize;
     fn proj(&self) -> Value;
+    /// keys of the order entries as the JSON snapshot shows them (see proj::keys_value)
+    fn keys(&self) -> Vec<Value>;
     /// Apply a label; the returned value is the call's result as the spec encodes it
     /// (`ret`: new order id, or -1 for a rejected creation; Null when the call returns nothing).
     fn apply(&mut self, lbl: &Value) -> Value;
@@ -77,6 +79,10 @@ impl<const L: usize> BookDyn for OrderBook<L> {
 
     fn proj(&self) -> Value {
         proj::book_proj(self)
+    }
+
+    fn keys(&self) -> Vec<Value> {
+        proj::keys_value(self)
     }
 
     fn apply(&mut self, l: &Value) -> Value {
